@@ -806,9 +806,10 @@ class Report:
             "wall_s": round(time.time() - self.t0, 3),
             "violations": len(new),
         }
-        evdir = VERIF / "evidence"
-        evdir.mkdir(exist_ok=True)
-        (evdir / f"{self.prop}.json").write_text(json.dumps(ev, indent=1, default=str))
+        if not os.environ.get("FV_NO_EVIDENCE"):
+            evdir = VERIF / "evidence"
+            evdir.mkdir(exist_ok=True)
+            (evdir / f"{self.prop}.json").write_text(json.dumps(ev, indent=1, default=str))
 
         for ln in lines:
             print(ln)
